@@ -179,6 +179,16 @@ func (w *xmlWalk) elem(e *etree.Element, parent *sdcpb.Path, parentNames []strin
 		}
 		return nil
 	}
+	// a presence container element that carries no update below it (only deletes) still creates the container
+	// (RFC 6241 merge creates every element it names): it denotes the write of the container itself
+	if l := w.u.Leaf(w.u.AlphaPath(p)); l != nil && l.Kind == "presence" {
+		nUpd := len(w.out.Upd)
+		defer func() {
+			if len(w.out.Upd) == nUpd {
+				w.out.Upd = append(w.out.Upd, [2]string{l.ID, "e:"})
+			}
+		}()
+	}
 	// group leaf-list children
 	ll := map[string][]string{}
 	for _, c := range children {
